@@ -22,6 +22,15 @@ CHECKS = {
             "Tolerance 1e-8*(|y|*||J^-1|| + |x|) + A*||J^-1|| with J from float64 autograd / one-sided FD at special points; rows "
             "with ||J^-1|| > 1e6, saturating chains, or conditioner outputs beyond |10| are inconclusive (counted).",
             "DESIGN.md 3/C02"),
+    "C04": ("Hypothesis-generated flows (zoo transforms, conditional/mixture bases, embedding nets, MAF, RealNVP) x contexts x "
+            "num_samples; differential pairing of sample_and_log_prob with log_prob per draw, row-identifying base, KS tests "
+            "against cumulative quadrature of the density and against the base distribution",
+            "Exploration: every draw returned by sample_and_log_prob carries exactly the log_prob of that sample under its own "
+            "context row; block i of sample(n, context) comes from context row i; 1-D flow samples follow the integrated density; "
+            "transform_to_noise(sample) follows the base.",
+            "Transforms with declared non-bijective clamps (Sigmoid.eps via CompositeCDF) and cubic inverse approximations are "
+            "excluded from the pairing test; KS power ~1 % at n=20000; conditional MADEMoG sampling is covered by C05.",
+            "DESIGN.md 3/C04"),
     "C05": ("Hypothesis-generated distributions/parameters/event shapes/context rows; exact summation (Bernoulli), adaptive "
             "Gauss-Legendre quadrature with knot-aligned panels in 1-2 D, closed-form differentials, KS tests of samples",
             "Exploration: every density-returning class: total mass 1 (exact sum / quadrature with an error estimate / volume "
